@@ -152,7 +152,7 @@ def case_features(case, objs=None) -> List[str]:
     # De Morgan turns into one): the engine never reaches it on the other disjunct
     empty_vars = {i for i, v in enumerate(case["vars"])
                   if not [j for j in case["doms"][v["dom"]]
-                          if case["ents"][j].get("cls", "Ent") in ("Ent", "EntSub", "EntPlain")]}
+                          if case["ents"][j].get("cls", "Ent") in ("Ent", "EntSub", "EntPlain", "EntV")]}
     if empty_vars:
         def under(n, inside):
             if n[0] in ("or", "not"):
